@@ -1,5 +1,5 @@
 SPECIFICATION Spec
-CONSTANTS MaxBr = 2 MaxN = 3 CopyMode = "deep"
+CONSTANTS MaxBr = 2 MaxN = 2 CopyMode = "deep"
   BufSizes <- BufAll
   FillBr = 3
   FillTemplates <- FillFew
@@ -11,4 +11,5 @@ INVARIANT HeldDisjoint
 INVARIANT OnlyLastSeesSource
 INVARIANT ZipNeverSeesSource
 INVARIANT SourceByLastOnly
+INVARIANT Emitted
 CHECK_DEADLOCK FALSE
